@@ -142,6 +142,7 @@ OPS = [
     ('css_user', lambda em, e: css(em, e, 'mten+gp', 'C2', None, USER_SNIPPETS)),
     ('css_user_pt', lambda em, e: css(em, e, 'gp', 'C2', {'stylesheet.intUnit': 'pt'}, USER_SNIPPETS)),
     ('css_nouser', lambda em, e: css(em, e, 'mten+gp', 'C2')),
+    ('css_user_other_values', lambda em, e: css(em, e, 'mten+gp', 'C2', None, {'mten': 'margin:20px', 'gp': 'grid-gap:20'})),   # same names
     ('css_nocache', lambda em, e: css(em, e, 'zom+p10+mten')),
     ('m_fail_nested', lambda em, e: em.expand('outer+p', {'snippets': {'outer': 'div>inner', 'inner': 'x["'}})),
     ('m_nested_ok', lambda em, e: em.expand('outer+p', {'snippets': {'outer': 'div>inner', 'inner': 'x[y]'}})),
